@@ -168,6 +168,21 @@ def r07d(P, R):
         negs = [x for x in _walk(body(n)) if x[0] == "neg"]
         ok = bool(negs) and all({y[1] for y in flat_choice(x[1])} >= {".", "NameStart"} for x in negs)
         R.check("R07-d", "number-lookahead:" + n, ok, "not followed by `.` or NameStart", "%s lacks the `!(. | NameStart)` lookahead" % n)
+    # ordered choice: no alternative is shadowed by an earlier one that is its prefix (PEG commits to the first success)
+    dead = g.dead_alternatives()
+    R.floor("R07-d", "ordered choices analysed", g.choice_count(), 40)
+    for rule, i, j, rest, verdict, why in dead:
+        msg = "%s: alternative %d begins with all of alternative %d, so it is never taken; %s" % (rule, j + 1, i + 1, why)
+        if verdict == "lost":
+            R.violated("R07-d", "peg-shadowed-alternative:%s" % rule, msg + " — inputs of that form are rejected")
+        else:
+            R.undecided("R07-d", "peg-dead-alternative:%s" % rule, msg)
+    if not dead:
+        R.holds("R07-d", "peg-ordered-choice", "no alternative of the %d ordered choices starts with a complete earlier alternative" % g.choice_count())
+    pcg = G.Grammar(None, text='T = @{ A ~ (B | C | (B ~ C)) ~ !("e" | "E" | "x") }\nA = { "1" }\nB = { "." }\nC = { ^"e" }\n')
+    pc = pcg.dead_alternatives()
+    R.check("R07-pc", "peg-shadow-detector", len(pc) == 1 and pc[0][4] == "lost", "the shadowed-alternative detector fires on its control grammar",
+            "control grammar not reported: %r" % (pc,))
     ns = {x[1] for x in flat_choice(body("NameStart"))}
     nc = {x[1] for x in flat_choice(body("NameContinue"))}
     R.check("R07-d", "name", ns == {"ASCII_ALPHA", "_"} and nc == {"ASCII_ALPHANUMERIC", "_"}, "Name: [_A-Za-z][_0-9A-Za-z]*", "NameStart %s / NameContinue %s" % (ns, nc))
